@@ -457,7 +457,60 @@ def _cli_hd(cv, M, path, xkey, xpub, dump, pr):
     return (r["out"], None)
 
 
+def _fields_from_dict(d):
+    return (bytes.fromhex(d["version"]), d["depth"].to_bytes(1, "big"), bytes.fromhex(d["parent_key_fingerprint"]),
+            d["child_no"].to_bytes(4, "big"), bytes.fromhex(d["chaincode"]), bytes.fromhex(d["key"]))
+
+
+def _ser_deser(cv, M, key, cc, depth, fp, child, testnet, dict_mode):
+    """writer -> reader in ONE process: serialized_extended_key(fields), then deserialized_extended_key of exactly the
+    bytes it returned (tuple mode or return_dict=True)"""
+    with _Ctx(cv, M) as x:
+        s = x.b32.serialized_extended_key(_key(key), cc, depth, fp, child, testnet=testnet)
+        if dict_mode:
+            return (s, _fields_from_dict(x.b32.deserialized_extended_key(s, return_dict=True)))
+        return (s, x.b32.deserialized_extended_key(s))
+
+
+def _ser_get_xpub(cv, M, key, cc, depth, fp, child, testnet):
+    with _Ctx(cv, M) as x:
+        import bits.wallet.hd as hd
+        s = x.b32.serialized_extended_key(_key(key), cc, depth, fp, child, testnet=testnet)
+        return (s, hd.get_xpub(s))
+
+
+def _ser_derive(cv, M, key, cc, depth, fp, child, testnet, path):
+    with _Ctx(cv, M) as x:
+        import bits.wallet.hd as hd
+        s = x.b32.serialized_extended_key(_key(key), cc, depth, fp, child, testnet=testnet)
+        return (s, hd.derive_from_path(path, s))
+
+
+def _deser_ser_deser(cv, M, xkey, dict_mode):
+    with _Ctx(cv, M) as x:
+        b = x.b32
+        v, d, fp, ch, cc, key = b.deserialized_extended_key(xkey)
+        s = b.serialized_extended_key(key, cc, d, fp, ch, testnet=v in (b.VERSION_PRIVATE_TESTNET, b.VERSION_PUBLIC_TESTNET))
+        if dict_mode:
+            return (s, _fields_from_dict(b.deserialized_extended_key(s, return_dict=True)))
+        return (s, b.deserialized_extended_key(s))
+
+
+def _master_chain(cv, M, seed, testnet, path):
+    import bits.bips.bip32 as b32
+    import bits.wallet.hd as hd
+    k, c = b32.to_master_key(seed)
+    s = b32.root_serialized_extended_key(k, c, testnet=testnet)
+    y = hd.derive_from_path(path, s)
+    return (s, y, hd.get_xpub(y))
+
+
+SEQ_FIELD_OPS = ("cli_hd", "ser_deser", "deser_ser_deser")
+
+
 IMPL = {
+    "ser_deser": _ser_deser, "ser_get_xpub": _ser_get_xpub, "ser_derive": _ser_derive,
+    "deser_ser_deser": _deser_ser_deser, "master_chain": _master_chain,
     "cli_hd": _cli_hd,
     "ser43": _ser43, "root": _root,
     "ckdpriv": _ckdpriv, "ckdpub": _ckdpub, "commute": _commute, "master": _master, "ser": _ser, "deser": _deser, "deser_dict": _deser_dict,
@@ -477,6 +530,12 @@ def model_call(c):
         return "c09_" + op, _cargs(a[0], a[1]) + list(a[2:])
     if op == "deser_dict":
         return "c09_deser", _cargs(a[0], a[1]) + list(a[2:])
+    if op == "ser_deser":
+        return "c09_ser_deser", _cargs(a[0], a[1]) + list(a[2:8])
+    if op in ("ser_get_xpub", "ser_derive", "master_chain"):
+        return "c09_" + op, _cargs(a[0], a[1]) + list(a[2:])
+    if op == "deser_ser_deser":
+        return "c09_deser_ser_deser", _cargs(a[0], a[1]) + [a[2]]
     if op == "derive_stepwise":
         return "c09_derive", _cargs(a[0], a[1]) + [a[2] + "".join("/" + t for t in a[3]), a[4]]
     if op == "ser43":        # BIP43: always the mainnet version bytes
@@ -497,7 +556,7 @@ def canon(c, v):
             ver, depth, fp, child, cc, key = v
             k = ["priv", key] if isinstance(key, int) else ["pub", key[0], key[1] & 1]
             return [ver, int.from_bytes(depth, "big"), fp, int.from_bytes(child, "big"), cc, k]
-    if c["op"] == "cli_hd" and isinstance(v, (list, tuple)) and len(v) == 2 and isinstance(v[1], (list, tuple)) \
+    if c["op"] in SEQ_FIELD_OPS and isinstance(v, (list, tuple)) and len(v) == 2 and isinstance(v[1], (list, tuple)) \
             and len(v[1]) == 6:
         # the dump shows the key as ser256(k) / serP(K); the model returns the deserialised int / point
         f = list(v[1])
@@ -860,6 +919,84 @@ def _with_dict_mode(cases):
     return out
 
 
+def _field_tuples(rng, cv):
+    """(label, key, cc, depth, fp, child, testnet) -- what the NON-validating serialiser can be handed: valid tuples and
+    one invalid class each (key range, off-curve point, depth-0 rules, field lengths)"""
+    C = curve(cv)
+    n, p = C["n"], C["p"]
+    cc, fp = rng.randbytes(32), rng.randbytes(4)
+    tn = rng.random() < 0.5
+    kv = rng.randrange(1, n)
+    K = ec_mul(C, kv, C["G"])
+    out = [("valid-prv", kv, cc, b"\x01", fp, b"\0\0\0\1", tn), ("valid-prv", kv, cc, 0, b"\0\0\0\0", 0, tn),
+           ("valid-pub", K, cc, b"\x02", fp, (H + 5).to_bytes(4, "big"), tn), ("valid-pub", K, cc, b"\0", b"\0\0\0\0", b"\0\0\0\0", tn)]
+    for k in (0, n, n + 1, (1 << 256) - 1):
+        out.append(("invalid-prv-range", k, cc, b"\x01", fp, b"\0\0\0\1", tn))
+        out.append(("invalid-prv-range", k, cc, b"\0", b"\0\0\0\0", b"\0\0\0\0", tn))
+    # points that are not on the curve (right x wrong y, x without a point, x >= p), y of either parity
+    offs = [(K[0], (K[1] + 1) % p), (K[0], (K[1] + 2) % p), (p, 0), (p + 1, 1)]
+    xs = [x for x in range(min(p, 60)) if lift_x(C, x, False) is None and lift_x(C, x, True) is None] if cv else \
+         [x for x in range(1, 40) if lift_x(C, x, False) is None]
+    offs += [(xs[0], 0), (xs[0], 1), (xs[-1], rng.randrange(2))]
+    for P in offs:
+        if not on_curve(C, P):
+            out.append(("invalid-pub-offcurve", P, cc, b"\x01", fp, b"\0\0\0\1", tn))
+    for key in (kv, K):
+        out.append(("invalid-depth0-fp", key, cc, b"\0", b"\0\0\0\1", b"\0\0\0\0", tn))
+        out.append(("invalid-depth0-index", key, cc, b"\0", b"\0\0\0\0", b"\0\0\0\1", tn))
+        out.append(("invalid-depth0-index", key, cc, 0, b"\0\0\0\0", H, tn))
+        out.append(("invalid-depth0-both", key, cc, 0, fp if fp != b"\0\0\0\0" else b"\1\1\1\1", 7, tn))
+        out.append(("invalid-length", key, cc[:31], b"\x01", fp, b"\0\0\0\1", tn))
+        out.append(("invalid-length", key, cc + b"\0", b"\x01", fp, b"\0\0\0\1", tn))
+        out.append(("invalid-length", key, cc, b"", fp, b"\0\0\0\1", tn))
+        out.append(("invalid-length", key, cc, b"\x01\x01", fp, b"\0\0\0\1", tn))
+        out.append(("invalid-length", key, cc, b"\x01", fp[:3], b"\0\0\0\1", tn))
+        out.append(("invalid-length", key, cc, b"\x01", fp, b"\0\0\1", tn))
+        # 78 bytes in total, fields shifted against the layout
+        out.append(("length78-misaligned", key, cc[:31], b"\x01", fp + b"\x07", b"\0\0\0\1", tn))
+        out.append(("length78-misaligned", key, cc + b"\x09", b"\x01", fp[:3], b"\0\0\0\1", tn))
+        out.append(("length78-misaligned", key, cc[:31], b"\x01\x00", fp, b"\0\0\0\1", tn))
+    return out
+
+
+def _gen_sequences(rng, T, out):
+    """state must not be carried from one function to a later call of another: writer -> reader sequences inside one
+    worker call, with valid and with invalid intermediate values"""
+    for cv in ([0, 43, 79, 67] if T else [0, 43]):
+        M = 0 if cv == 0 else curve(cv)["n"] + 2
+        for rep in range(4 if T else 1):
+            for (lab, key, cc, depth, fp, child, tn) in _field_tuples(rng, cv):
+                key = tuple(key) if not isinstance(key, int) else key
+                public = not isinstance(key, int)
+                out.append(case("seq-ser-deser-" + lab, "ser_deser", cv, M, key, cc, depth, fp, child, tn, False))
+                out.append(case("seq-ser-deser-dict-" + lab, "ser_deser", cv, M, key, cc, depth, fp, child, tn, True))
+                heavy = cv == 0 and lab.startswith("valid")        # scalar multiplications on secp256k1
+                if not heavy or lab == "valid-prv" and rng.random() < 0.5:
+                    out.append(case("seq-ser-get_xpub-" + lab, "ser_get_xpub", cv, M, key, cc, depth, fp, child, tn))
+                P = "M" if public else "m"
+                out.append(case("seq-ser-derive0-" + lab, "ser_derive", cv, M, key, cc, depth, fp, child, tn, P))
+                if not heavy:
+                    out.append(case("seq-ser-derive1-" + lab, "ser_derive", cv, M, key, cc, depth, fp, child, tn, P + "/1"))
+        # reader -> writer -> reader
+        C = curve(cv)
+        for rep in range(6 if T else 2):
+            for public in (False, True):
+                X = _small_xk(rng, cv, public) if cv else XK(rng.random() < 0.5, 3, rng.randbytes(4), _rand_index(rng), rng.randbytes(32),
+                                                           rng.randrange(1, C["n"]))
+                if cv == 0 and public:
+                    X = X.neuter(C)
+                for dm in (False, True):
+                    out.append(case("seq-deser-ser-deser-valid", "deser_ser_deser", cv, M, X.ser(), dm))
+                for (lab, payload) in _mutations(rng, C, X)[1::3]:
+                    out.append(case("seq-deser-ser-deser-" + lab, "deser_ser_deser", cv, M, b58c(payload), rng.random() < 0.5))
+    # to_master_key -> root_serialized_extended_key -> derive_from_path -> get_xpub
+    for i in range(6 if T else 2):
+        seed = rng.randbytes(rng.choice([16, 32, 64]))
+        out.append(case("seq-master-chain", "master_chain", 0, 0, seed, i % 2 == 1, "m" if i % 2 == 0 else "m/%d'" % (i % 3)))
+    out.append(case("seq-master-chain-refuse", "master_chain", 0, 0, rng.randbytes(16), False, "M/0"))
+    out.append(case("seq-master-chain-refuse", "master_chain", 0, 0, rng.randbytes(16), True, "m/x"))
+
+
 def _gen_cli(rng, T, out):
     """`bits hd`: every flag combination x key kind x path kind, acceptance and refusal; mostly on the small curve"""
     combos = [(xp, du, pr) for xp in (False, True) for du in (False, True) for pr in (False, True)]
@@ -927,6 +1064,7 @@ def _gen_cases(rng, tier):
     _gen_serde(rng, T, out)
     _gen_secp(rng, T, out)
     _gen_cli(rng, T, out)
+    _gen_sequences(rng, T, out)
     return out
 
 
@@ -1040,6 +1178,8 @@ def prop_oracle(c):
         return None
     if op == "cli_hd":
         return _oracle_cli(a)
+    if op in ("ser_deser", "ser_get_xpub", "ser_derive", "deser_ser_deser", "master_chain"):
+        return _oracle_seq(op, a)
     if op in ("derive", "derive_stepwise"):
         if op == "derive":
             path, s = a[2], a[3]
@@ -1072,6 +1212,107 @@ def prop_oracle(c):
             return "deriving the path one step at a time gives a different key"
         return None
     return None
+
+
+def _ref_payload(key, cc, depth, fp, child, testnet):
+    """what BIP32's format says these fields serialise to (None: not serialisable)"""
+    try:
+        d = depth.to_bytes(1, "big") if isinstance(depth, int) else bytes(depth)
+        c = child.to_bytes(4, "big") if isinstance(child, int) else bytes(child)
+        if isinstance(key, int):
+            v, kd = (V_TPRV if testnet else V_XPRV), b"\0" + key.to_bytes(32, "big")
+        else:
+            v, kd = (V_TPUB if testnet else V_XPUB), serP(tuple(key))
+        return v + d + bytes(fp) + c + bytes(cc) + kd
+    except (OverflowError, TypeError, ValueError):
+        return None
+
+
+def _fields_key_bytes(f):
+    f = list(f)
+    k = f[5]
+    f[5] = k.to_bytes(32, "big") if isinstance(k, int) else (serP(tuple(k)) if isinstance(k, (list, tuple)) else bytes(k))
+    return common.norm(f)
+
+
+def _oracle_seq(op, a):
+    """a reader must judge the bytes it is given by BIP32's rules, whatever this process wrote or read before"""
+    cv, M = a[0], a[1]
+    C, hf = curve(cv), hm(M)
+    if op == "master_chain":
+        seed, tn, path = a[2:]
+        ok, r = _try(lambda: _master_chain(cv, M, seed, tn, path))
+        m = ref_master(seed)
+        parsed = _canonical_path(path)
+        want = None
+        if m is not None and parsed is not None and not parsed[0]:
+            X = XK(tn, 0, b"\0\0\0\0", 0, m[1], m[0])
+            Y = ref_derive(C, hf, X, parsed[1])
+            if not isinstance(Y, str):
+                want = (X.ser(), Y.ser(), Y.neuter(C).ser())
+        if (want is not None) != ok:
+            return "master key -> derive -> get_xpub %s, BIP32 %s" % ("succeeds" if ok else "refuses", "gives keys" if want else "gives none")
+        if ok and tuple(r) != want:
+            return "master key -> derive -> get_xpub differs from BIP32"
+        return None
+    if op == "deser_ser_deser":
+        s, dm = a[2], a[3]
+        ok, r = _try(lambda: _deser_ser_deser(cv, M, s, dm))
+        X = ref_parse(C, s)
+        if (X is not None) != ok:
+            return "deserialise -> serialise -> deserialise accepts=%s, BIP32 validity of the first string=%s" % (ok, X is not None)
+        if ok:
+            f = X.fields()
+            if r[0] != s or _fields_key_bytes(r[1]) != _fields_key_bytes(f):
+                return "deserialise -> serialise -> deserialise does not return the same key"
+        return None
+    key, cc, depth, fp, child, tn = a[2:8]
+    payload = _ref_payload(key, cc, depth, fp, child, tn)
+    X = ref_parse_payload(C, payload) if payload is not None else None
+    if op == "ser_deser":
+        ok, r = _try(lambda: _ser_deser(cv, M, key, cc, depth, fp, child, tn, a[8]))
+        if ok and X is None:
+            return "deserialized_extended_key accepted an INVALID extended key right after serialized_extended_key wrote it " \
+                   "(the same bytes are invalid by BIP32: %s)" % c_label(C, payload)
+        if not ok and X is not None:
+            return "serialise -> deserialise refused a valid field tuple: %r" % r
+        if ok and (r[0] != b58c(payload) or _fields_key_bytes(r[1]) != _fields_key_bytes(X.fields())):
+            return "serialise -> deserialise does not return the fields"
+        return None
+    if op == "ser_get_xpub":
+        ok, r = _try(lambda: _ser_get_xpub(cv, M, key, cc, depth, fp, child, tn))
+        if ok and X is None:
+            return "get_xpub accepted an INVALID extended key right after serialized_extended_key wrote it (%s)" % c_label(C, payload)
+        if not ok and X is not None:
+            return "serialise -> get_xpub refused a valid key: %r" % r
+        if ok and r[1] != X.neuter(C).ser():
+            return "serialise -> get_xpub is not the neutered key"
+        return None
+    if op == "ser_derive":
+        path = a[8]
+        ok, r = _try(lambda: _ser_derive(cv, M, key, cc, depth, fp, child, tn, path))
+        if ok and X is None:
+            return "derive_from_path accepted an INVALID parent key right after serialized_extended_key wrote it (%s)" % c_label(C, payload)
+        parsed = _canonical_path(path)
+        if X is None or parsed is None:
+            return None
+        want = ref_derive(C, hf, X, parsed[1]) if parsed[0] == X.public else "kind"
+        if isinstance(want, str):
+            return None if not ok else "serialise -> derive returned a key where BIP32 gives none (%s)" % want
+        if not ok or r[1] != want.ser():
+            return "serialise -> derive differs from BIP32"
+        return None
+    return None
+
+
+def c_label(C, payload):
+    if payload is None:
+        return "not serialisable"
+    if len(payload) != 78:
+        return "%d-byte payload" % len(payload)
+    if payload[4] == 0 and payload[5:13] != bytes(8):
+        return "depth 0 with non-zero fingerprint / child number"
+    return "key data %s" % payload[45:].hex()
 
 
 def _oracle_cli(a):
@@ -1187,7 +1428,7 @@ def extra_checks(ctx):
     n_eval = 0
     for c in cases:
         cv = c["args"][0] if c["op"] not in ("py_int", "master", "ser", "ser43", "root") else None
-        heavy = cv == 0 and c["op"] in ("derive", "derive_stepwise", "commute", "ckdpriv", "ckdpub", "get_xpub", "cli_hd")
+        heavy = cv == 0 and c["op"] in ("derive", "derive_stepwise", "commute", "ckdpriv", "ckdpub", "get_xpub", "cli_hd", "master_chain")
         kind = "secp" if heavy else "cheap"
         lim = (3 if T else 1) if heavy else (40 if T else 4)
         if budget[kind] <= 0 or per_cls.get(c["cls"], 0) >= lim or c["op"] == "py_int":
